@@ -114,6 +114,25 @@ def stepLine (st : State) (toks : List String) : State × String :=
     match parseList parseArea areas, parseList parseEntry entries with
     | some as, some es => ({ t := { areas := as, entries := es, bigEndian := be == "1" } }, "ok")
     | _, _ => (st, "bad-op")
+  | ["rt.edit", be, areas, entries] =>
+    -- the description is edited in place: what earlier operations left in the structures stays (entry -> area
+    -- link and offset, touched marks, the run recorded in each area, the table's flags, storage of areas whose
+    -- size is unchanged)
+    match parseList parseArea areas, parseList parseEntry entries with
+    | some as, some es =>
+      let as' := (List.range as.length).filterMap fun i =>
+        match as[i]?, t.areas[i]? with
+        | some a, some o => some { a with first := o.first, last := o.last, count := o.count,
+                                          mem := if a.size = o.size then o.mem else a.mem }
+        | some a, none => some a
+        | none, _ => none
+      let es' := (List.range es.length).filterMap fun i =>
+        match es[i]?, t.entries[i]? with
+        | some e, some o => some { e with area := o.area, offset := o.offset, touched := o.touched }
+        | some e, none => some e
+        | none, _ => none
+      ({ t := { t with areas := as', entries := es', bigEndian := be == "1" } }, "ok")
+    | _, _ => (st, "bad-op")
   | ["rt.init"] =>
     let (r, t') := register_init cb t
     let links := "/".intercalate (t'.areas.map fun a => s!"{a.first},{a.last},{a.count}")
